@@ -351,7 +351,7 @@ class Assembler:
                 kc = m[k + 2]
                 prev = s.s(k0 - 1) if k0 > 0 else '{'
                 stmt_pos = prev in (';', '{', '}') and s.kind(k0 - 1) == 'p'
-                if name in LOG_MACROS:
+                if name in LOG_MACROS or name in self.u.get('drop_macros', []):
                     if stmt_pos:
                         b = s.t[kc][2]
                         if s.is_p(kc + 1, ';'):
